@@ -83,6 +83,11 @@ SB_OP(traj)
             memset(&r, 0, sizeof(r));
             sb_error_t qrc = k == 's' ? sb_trajectory_get_start_position(&traj, &r) : sb_trajectory_get_end_position(&traj, &r);
             add(out, std::to_string((int)qrc) + "," + vec(r));
+        } else if (k == 'n' || k == 'w') {
+            // the public cursor API as part of a history: step to the next segment / rewind
+            sb_error_t qrc = k == 'n' ? sb_trajectory_player_build_next_segment(&player) : sb_trajectory_player_rewind(&player);
+            add(out, std::to_string((int)qrc) + "," + std::to_string(player.current_segment.start) + "," + std::to_string(player.current_segment.length) + ","
+                + std::to_string(sb_trajectory_player_has_more_segments(&player) ? 1 : 0));
         } else {
             add(out, "?");
         }
